@@ -2646,3 +2646,119 @@ func ruleV12(c *an.Ctx) {
 		c.Info("V12", "anchor(separator shortcut in getMaybeFileNames)", 0, "not found: not decided")
 	}
 }
+
+// Q20 (C09): the formatter tells negative zero from zero.  Whole floats are printed without a
+// fraction and read back as integers of equal value - except -0.0, which no integer literal denotes:
+// printed as `-0` it is read back as the integer 0.
+// Rule: FloatExp.format consults math.Signbit.
+func ruleQ20(c *an.Ctx) {
+	fn := c.P.Func(pkgSyntax, "(*FloatExp).format")
+	if fn == nil {
+		c.Info("Q20", "anchor((*FloatExp).format)", 0, "not found: not decided")
+		return
+	}
+	ok := an.MayDo(fn, func(in ssa.Instruction) bool { return staticCalleeIs(in, "math", "Signbit") != nil }, 1)
+	c.Check("Q20", "negative-zero-keeps-its-fraction@(*FloatExp).format", fn.Pos(), ok,
+		"the float formatter never looks at the sign bit: -0.0 is printed as -0, which the tokenizer reads as the integer 0 - the value changes and the next pass prints 0")
+}
+
+// X12 (C03): the static fork expansion tolerates an empty fork list.  With two fork sources of which
+// one is statically empty MakeForkIds builds no forks; expandStaticForks indexed the first one anyway
+// and InvokePipeline panicked.
+// Rule: in ForkIdSet.expandStaticForks an element of the fork list at a constant index is accessed
+// only under a length guard.
+func ruleX12(c *an.Ctx) {
+	fn := c.P.Func(pkgCore, "(*ForkIdSet).expandStaticForks")
+	listF := c.P.Field(pkgCore, "ForkIdSet", "List")
+	if fn == nil || listF == nil {
+		c.Info("X12", "anchor(expandStaticForks)", 0, "not found: not decided")
+		return
+	}
+	n := 0
+	an.Instrs(fn, func(in ssa.Instruction) {
+		ia, ok := in.(*ssa.IndexAddr)
+		if !ok || !an.LoadsField(ia.X, listF) {
+			return
+		}
+		if _, isK := ia.Index.(*ssa.Const); !isK {
+			return
+		}
+		n++
+		g, _ := an.GuardedBy(ia, func(rel an.Rel) bool {
+			r := rel
+			if _, isK := an.ConstVal(r.X); isK {
+				r = r.Flip()
+			}
+			args, isLen := an.IsBuiltinCall(r.X, "len")
+			if !isLen || !an.LoadsField(args[0], listF) {
+				return false
+			}
+			return (r.Op == token.NEQ || r.Op == token.GTR) && an.IsIntConst(r.Y, 0) || r.Op == token.GEQ && an.IsIntConst(r.Y, 1)
+		})
+		c.Check("X12", fmt.Sprintf("first-fork-read-only-if-there-is-one@(*ForkIdSet).expandStaticForks#%d", n), ia.Pos(), g,
+			"the first element of the fork list is read without a length check: a nested map call with a statically empty source (`ys = []`) has no forks, and InvokePipeline panics with index out of range instead of running nothing")
+	})
+	if n == 0 {
+		c.Pass("X12", "no-constant-index-into-the-fork-list@(*ForkIdSet).expandStaticForks", fn.Pos(), "the fork list is not indexed with a constant")
+	}
+}
+
+// X13 (C03): the split standing for partly disabled outputs knows its type.  When a split
+// `disabled` flag switches a call off in some forks of an enclosing map call, the call's outputs are
+// represented as split [null, ref, ...].  Without a type the call mode of that split is guessed
+// from its elements (`unknown` for [null, ref], `null` for [ref, null]) and a map call over such an
+// output panics in the fork expansion.
+// Rule: the two resolvers that build this expression (CallGraphStage.resolve,
+// CallGraphPipeline.resolvePipelineOuts) store its Type.
+func ruleX13(c *an.Ctx) {
+	typeF := c.P.Field(pkgSyntax, "SplitExp", "Type")
+	if typeF == nil {
+		c.Info("X13", "anchor(SplitExp.Type)", 0, "not found: not decided")
+		return
+	}
+	for _, name := range []string{"(*CallGraphStage).resolve", "(*CallGraphPipeline).resolvePipelineOuts"} {
+		fn := c.P.Func(pkgSyntax, name)
+		if fn == nil {
+			c.Info("X13", "anchor("+name+")", 0, "not found: not decided")
+			continue
+		}
+		found := false
+		for _, g := range append([]*ssa.Function{fn}, familyOf(c.P, fn, 1)...) {
+			if g.Pkg != fn.Pkg {
+				continue
+			}
+			for _, st := range an.StoresToField(g, typeF) {
+				_ = st
+				found = true
+			}
+		}
+		c.Check("X13", "partly-disabled-outputs-carry-their-type@"+an.FnName(fn), fn.Pos(), found,
+			"the split expression built for the outputs of a call that is disabled in some forks is left without a type: its call mode is then guessed from elements like [null, ref], and mapping over such an output panics with `invalid fork mode unknown`")
+	}
+}
+
+// X14 (C03): a stage that can never run is marked disabled whether or not it has outputs.
+// Rule: every return of CallGraphStage.resolve has consulted isAlwaysDisabled().
+func ruleX14(c *an.Ctx) {
+	fn := c.P.Func(pkgSyntax, "(*CallGraphStage).resolve")
+	if fn == nil {
+		c.Info("X14", "anchor((*CallGraphStage).resolve)", 0, "not found: not decided")
+		return
+	}
+	asked := func(in ssa.Instruction) bool { return staticCalleeIs(in, "", "isAlwaysDisabled") != nil }
+	n := 0
+	an.Instrs(fn, func(in ssa.Instruction) {
+		r, ok := in.(*ssa.Return)
+		if !ok {
+			return
+		}
+		n++
+		w := an.Query{Fn: fn, Target: func(x ssa.Instruction) bool { return x == ssa.Instruction(r) }, Barrier: asked}.Find()
+		pos := r.Pos()
+		if !pos.IsValid() {
+			pos = fn.Pos()
+		}
+		c.Check("X14", fmt.Sprintf("always-disabled-asked-on-every-path@(*CallGraphStage).resolve#%d", n), pos, w == nil,
+			"a stage can be resolved without asking whether it is always disabled: a stage without out parameters mapped over an empty collection that arrives through a pipeline argument gets a default fork with no disable binding, and one job runs with a null input; "+c.WitnessString(w))
+	})
+}
